@@ -31,9 +31,9 @@ struct Value {
         T_INT,
         T_DATA,
         T_OPCODE,
-    } type;
-    int64_t int64;
-    opcodetype opcode;
+    } type = T_STRING;
+    int64_t int64 = 0;
+    opcodetype opcode = OP_0;
     std::vector<uint8_t> data;
     std::string str;
     // every [bracket level is one level of recursion in the parser below
